@@ -19,6 +19,7 @@ RULE = ("(kernel) generated parameters for Binary/Purification RBMs (n 1..4, nh 
         "histories some uniform fell on each side of its probability.")
 RULE_EXT = ('Extended as built: the start state seen by the kernel is learned from a spy on gibbs_steps; results of earlier calls are held and re-verified after later calls; float32 start states; default start must be random and of the right shape; effective_energy(v, a) with explicit auxiliary units. Rounds 5-6: the public sample_h_given_v / sample_v_given_h / sample_a_given_v / sample_v_given_ha called directly without and with out= under the scripted Bernoulli monitor; num_aux = 0.')
 RULE_EXT += ' Round 10 (after an exception / long time axis): histories with refused sample() calls (wrong width, non-integer k, read-only start with overwrite; caught) and chains of 16-37 steps; empirical law for k up to 200 on slowly mixing networks (label law_after_16_steps_differs).'
+RULE_EXT += " Start states that are views into a larger tensor of the caller (every second column, a transposed block): with overwrite=True exactly the viewed elements hold the final chain states, the view keeps its geometry, the other elements are untouched."
 RULE = RULE + " " + RULE_EXT
 ASSUMPTIONS = ["(history) the implementation draws through torch.bernoulli; if the monitor sees no call for k>0 it declares itself "
                "inapplicable instead of raising", "(empirical) power limited to deviations >= ~3% in some state probability",
@@ -210,7 +211,8 @@ def histories(draw, tier):
             op.update(k=draw(KSTEPS), m=m_fixed if draw(st.booleans()) else draw(st.integers(1, 3)))
         elif kind == "start":
             op.update(k=draw(st.integers(0, 3)), idx=draw(gen.index_list(n, 1, 3)), overwrite=draw(st.booleans()), one_d=draw(st.booleans()),
-                      dtype=draw(st.sampled_from(["float64", "float64", "float32"])))
+                      dtype=draw(st.sampled_from(["float64", "float64", "float32"])),
+                      layout=draw(st.sampled_from(["contiguous", "contiguous", "strided", "transposed"])))     # the start state as a view into a larger tensor of the caller
         elif kind == "continue":
             op.update(k=draw(KSTEPS), overwrite=draw(st.booleans()))
         ops.append(op)
@@ -297,6 +299,17 @@ def check_history(case):
                         init = init[0].clone()
                     if op.get("dtype") == "float32":
                         init = init.float()
+                    host = None
+                    if op.get("layout") == "strided":
+                        # every second column of a larger tensor of the caller (the columns in between hold the caller's other data: 7.0)
+                        host = torch.full(tuple(init.shape[:-1]) + (2 * n,), 7.0, dtype=init.dtype)
+                        host[..., ::2] = init
+                        init = host[..., ::2]
+                    elif op.get("layout") == "transposed" and not op["one_d"]:
+                        host = torch.full((n, init.shape[0]), 7.0, dtype=init.dtype)
+                        host.copy_(init.t())
+                        init = host.t()
+                    host_meta = (tuple(init.shape), tuple(init.stride()), init.storage_offset())
                 else:
                     init = chain
                 before = init.clone()
@@ -348,8 +361,21 @@ def check_history(case):
                 elif overwrite:
                     require(torch.equal(given.double(), res.double()) and given.data_ptr() == res.data_ptr(), "history:overwrite",
                             "overwrite=True must update the caller's start state in place (and return it)")
+                    if op["op"] == "start" and host is not None:
+                        # the start state was a view into a larger tensor: exactly the viewed elements hold the final chain states, the view itself
+                        # still has the geometry it had, and the caller's other elements are untouched
+                        require((tuple(given.shape), tuple(given.stride()), given.storage_offset()) == host_meta, "history:overwrite:view-geometry-changed",
+                                f"overwrite=True changed the shape / strides of the caller's start tensor (a view into a larger tensor): {host_meta} -> {(tuple(given.shape), tuple(given.stride()), given.storage_offset())}")
+                        if op.get("layout") == "strided":
+                            require(torch.equal(host[..., ::2].double().reshape(-1, n), cur) and bool(torch.all(host[..., 1::2] == 7.0)), "history:overwrite:view-elements",
+                                    "overwrite=True on a start state that is a strided view: the viewed elements do not hold the final chain states, or the caller's other elements were overwritten", host=host.tolist())
+                        else:
+                            require(torch.equal(host.t().double().reshape(-1, n), cur), "history:overwrite:view-elements", "overwrite=True on a transposed view: the viewed elements do not hold the final chain states")
                 else:
                     require(torch.equal(given, before), "history:start-mutated", "the caller's start state was modified although overwrite=False")
+                    if op["op"] == "start" and host is not None and op.get("layout") == "strided":
+                        require(bool(torch.all(host[..., 1::2] == 7.0)) and (tuple(given.shape), tuple(given.stride()), given.storage_offset()) == host_meta, "history:start-mutated",
+                                "the tensor the start state is a view of was modified although overwrite=False")
                     require(k == 0 or given.data_ptr() != res.data_ptr(), "history:alias", "result aliases the caller's start state although overwrite=False")
             # results of EARLIER calls (still held by the caller) must not change because of this call - unless the caller itself passed
             # them back with overwrite=True
